@@ -3,7 +3,7 @@
 # confirmed by confirm_seed.sh): run the quick check against the patched scratch copy and file the seed as seeded/<PROP>-<variant>
 # when it is reported.
 ROUND=${ROUND:-r2}
-case $ROUND in r2) NAMES="C D";; r3) NAMES="E F";; *) NAMES="G H";; esac
+case $ROUND in r2) NAMES="C D";; r3) NAMES="E F";; r5) NAMES="I J";; *) NAMES="G H";; esac
 cd /verif
 for p in "$@"; do i=0; for v in A B; do nv=$(echo "$NAMES" | cut -d' ' -f$((i+1))); i=$((i+1))
   [ -f /tmp/seed/out/${p}${ROUND}/$v/confirm.txt ] || { echo "$p-$nv: not confirmed yet"; continue; }
